@@ -114,10 +114,13 @@ theorem cfgc_writeOn (s : Sess) (i : Nat) (b : Bytes) : Cfgc s (s.writeOn i b) :
   · exact ⟨rfl, rfl⟩
   · exact Cfgc.refl s
 
+theorem cfgc_abortPending (s : Sess) : Cfgc s s.abortPending := ⟨by simp, by simp⟩
+theorem cfgc_withPending (s : Sess) (v : Option Nat) : Cfgc s (s.withPending v) := ⟨rfl, rfl⟩
+
 theorem cfgc_connectTcp (s : Sess) : Cfgc s s.connectTcp := by
   unfold connectTcp; split
-  · exact ⟨rfl, rfl⟩
-  · exact Cfgc.refl s
+  · exact (cfgc_abortPending s).trans ⟨rfl, rfl⟩
+  · exact cfgc_abortPending s
 
 theorem cfgc_setSt (s : Sess) (v : St) : Cfgc s (s.setSt v) := Cfgc.of_frm (frm_setSt 0 s v)
 theorem cfgc_closeConn (s : Sess) : Cfgc s s.closeConn := Cfgc.of_frm (frm_closeConn 0 s)
@@ -170,7 +173,7 @@ theorem cfgc_manualStop (s : Sess) : Cfgc s s.manualStop := by
     · exact cfgc_sendNotification s _ _ _
     · exact Cfgc.refl s
   exact ((((((h1.trans (cfgc_withTm _ _)).trans (cfgc_closeConn _)).trans (cfgc_withRetryCounter _ _)).trans
-    (cfgc_withAllow _ _)).trans (cfgc_setSt _ _)).trans (cfgc_emit _ _))
+    (cfgc_withAllow _ _)).trans (cfgc_setSt _ _)).trans (cfgc_abortPending _)).trans (cfgc_emit _ _)
 
 theorem cfgc_manualStart (s : Sess) : Cfgc s s.manualStart := by
   unfold manualStart
@@ -270,7 +273,11 @@ theorem step_caps_le (w : World) (e : Ev) :
       · rw [localCaps_setSt]; exact k1
       · rw [cfg_setSt]; exact k2
     · exact ⟨k1, k2⟩
-  | connFail c => exact of ((cfgc_setPhase _ c .closed).trans ((cfgc_emit _ _).trans (cfgc_connectionFailed _)))
+  | connFail c =>
+    simp only [step, connFail]
+    split
+    · exact of ((cfgc_withPending _ _).trans ((cfgc_setPhase _ c .closed).trans ((cfgc_emit _ _).trans (cfgc_connectionFailed _))))
+    · exact of (cfgc_setPhase _ c .closed)
   | chunk c d => exact of (cfgc_drain U c _ _ _)
   | lost c =>
     simp only [step, connLost]
@@ -340,8 +347,8 @@ theorem C05_asn4_iff_both {t : Sess} {i : Nat} (hn : Norm t i) (m : OpenMsg) (h0
 theorem C05_new_connection_decodes_2octet (s : Sess) (h : s.st ≠ .established) :
     (s.connectTcp.conn s.conns.length).asn4 = false := by
   unfold connectTcp
-  rw [if_pos h]
-  simp [conn, Sess.emit, withConns]
+  rw [if_pos (by simpa using h)]
+  simp [conn, Sess.emit, withConns, withPending]
 
 /-- KNOWN FINDING (C05-capability-leak), model side: after a peer OPEN that carried the 4-octet-AS capability but not
     route refresh, the dictionary our NEXT OPEN is built from has lost route refresh — the OPEN of the next
